@@ -230,6 +230,7 @@ type item struct {
 	// batches
 	From  int        `json:"from"`
 	To    int        `json:"to"`
+	Step  int        `json:"step"` // cuts: beyond the first/last 96 offsets only every Step-th one
 	Cases []caseItem `json:"cases"`
 	Err   string     `json:"err"`
 	Seq   []string   `json:"seq"`
@@ -468,6 +469,10 @@ func opCuts(it item, e *core.Emitter) any {
 		end = it.To
 	}
 	for k := it.From; k < end; k++ {
+		if it.Step > 1 && k >= 96 && k < len(data)-96 && k%it.Step != 0 {
+			codes = append(codes, '-')
+			continue
+		}
 		e.Sub(k)
 		rc := it.Reader
 		var r decResult
